@@ -180,6 +180,8 @@ def _level(lv, problem, lsc, bounds, depth):
     e = lv["engine"]
     rng = _range(bounds)
     shrink = 1.0 / (3.0 ** depth)
+    if "sstd_wide" in lv:          # initial sample of a sprouted deme as wide as the box itself (rejection sampling works hard)
+        lv = dict(lv, sstd=float(lv["sstd_wide"]) / shrink)
     if e in SEA_CLASSES or e == "CUSTOM":
         kw = dict(ea_class=SEA_CLASSES.get(e, SEA), pop_size=int(lv.get("pop", 6)), problem=problem, lsc=lsc,
                   generations=int(lv.get("gens", 1)), mutation_std=float(lv.get("mstd", 0.15)) * rng * shrink,
